@@ -106,10 +106,12 @@ def apply_axes(arr, mats, axes):
 
 def per_function_scales(basis, env):
     """Library-derived per-function magnitudes: t = sqrt(2 T_aa), extent about the moment origin and the coordinate origin."""
-    t = np.sqrt(2 * np.abs(np.diag(kinetic_energy_integral(basis))))
+    from vf.core import lib
+
+    t = np.sqrt(2 * np.abs(np.diag(lib(kinetic_energy_integral, basis))))
     sec = np.array([[2, 0, 0], [0, 2, 0], [0, 0, 2]])
-    ro = np.sqrt(np.abs(np.einsum("aak->a", moment_integral(basis, _a(env, "origin"), sec))))
-    r0 = np.sqrt(np.abs(np.einsum("aak->a", moment_integral(basis, np.zeros(3), sec))))
+    ro = np.sqrt(np.abs(np.einsum("aak->a", lib(moment_integral, basis, _a(env, "origin"), sec))))
+    r0 = np.sqrt(np.abs(np.einsum("aak->a", lib(moment_integral, basis, np.zeros(3), sec))))
     return t, ro, r0
 
 
@@ -210,7 +212,9 @@ class Scales:
                             val = self.neighbourhood(o)
                             val = val if transform is None else np.abs(transform) @ val
                         else:
-                            val = np.abs(evaluate_deriv_basis(self.basis, pts, o, transform=transform))
+                            from vf.core import lib
+
+                            val = np.abs(lib(evaluate_deriv_basis, self.basis, pts, o, transform=transform))
                         acc = acc + val
                 cache[tot] = acc
         return cache[n]
